@@ -68,8 +68,8 @@ def px_arg(px, spelling):
         return np.float32(px)
     if spelling == "str":
         return repr(float(px))
-    if spelling == "int" and float(px) == int(px):
-        return int(px)
+    if spelling in ("int", "npi32", "npi64") and float(px) == int(px):
+        return {"int": int, "npi32": np.int32, "npi64": np.int64}[spelling](int(px))
     return float(px)
 
 
@@ -228,6 +228,18 @@ def measure(ctx, case):
     o_r2 = np.asarray(apply_filter(ctx, R2, px, d, how), dtype=float)
     o_c = np.asarray(apply_filter(ctx, R + 2.0 * R2, px, d, how), dtype=float)
     lin = float(np.max(np.abs(o_c - o_r - 2.0 * o_r2))) / float(np.max(np.abs(R + 2.0 * R2)))
+    # degenerate images inside an otherwise random stack: constant images (0, 1, 0.5, -3) must come back unchanged
+    # (only the zero frequency is present and it is not attenuated), and nothing may turn into NaN
+    consts = [0.0, 1.0, 0.5, -3.0]
+    D = nprng.normal(size=(W, H, n))
+    cidx = [i for i in range(n) if (i + case["mseed"]) % 2 == 0] or [0]
+    for j, i in enumerate(cidx):
+        D[:, :, i] = consts[(j + case["mseed"]) % 4]
+    o_d = np.asarray(apply_filter(ctx, D, px, d, how), dtype=float)
+    if o_d.shape != D.shape or not np.all(np.isfinite(o_d)):
+        degen = float("nan")
+    else:
+        degen = max(float(np.max(np.abs(o_d[:, :, i] - D[:, :, i]))) for i in cidx)
     # pure plane waves: every integer frequency of small images, else axes, diagonals and a sample
     if W * H <= case.get("pw_limit", 150):
         ks = ents
@@ -255,6 +267,7 @@ def measure(ctx, case):
             pw = max(pw, abs(gk - G[i, kx % W, ky % H]))
             leak = max(leak, float(np.max(np.abs(ow[:, :, i] - gk.real * w))))
     t.update({"rep": clampi(rep * 1e9 / scale), "keep": clampi(keep * 1e9 / scale), "argmut": bool(argmut or obs["argmut"])})
+    t["degen"] = clampi(degen * 1e9)
     t.update({"spread": clampi(spread * 1e9), "mean": clampi(mean * 1e9), "lin": clampi(lin * 1e9), "pw": clampi(pw * 1e9),
               "leak": clampi(leak * 1e9)})
     # composition: d1 then d2 against d1 + d2 at once
@@ -401,6 +414,18 @@ def rand_doses(rng, n, lo=0.0, hi=300.0, need_big=False, mode=None):
     return ds
 
 
+def int_px_case(rng, px, spelling, i):
+    """Integer pixel size (Python int / numpy integer) with the image width on the calibration grid, non-zero doses."""
+    widths = [L // px for L in GRID_L if L % px == 0 and 4 <= L // px <= 64 and 200 * ((L // px) // 2) >= 10 * L]   # m >= 10 reachable
+    W = widths[i % len(widths)]
+    H = rng.randint(4, 12)
+    n = rng.randint(1, 4)
+    return {"W": W, "H": H, "n": n, "mseed": rng.randrange(2 ** 31), "doses_as": ["array", "list", "file", "csv"][i % 4],
+            "form": FORMS[i % len(FORMS)], "pxas": spelling, "px": float(px), "lx100": W * px * 100, "ly100": H * px * 100,
+            "xexact": True, "yexact": True,
+            "d100": [int(round(x * 100)) for x in rand_doses(rng, n, lo=50.0, need_big=True, mode="distinct")]}
+
+
 def rand_case(rng, wh_lo=4, wh_hi=64, nmax=10, area_cap=None, force_grid=None, comp=None, nmin=1, dose_mode=None,
               doses_as=None, form=None):
     while True:
@@ -413,7 +438,7 @@ def rand_case(rng, wh_lo=4, wh_hi=64, nmax=10, area_cap=None, force_grid=None, c
     grid = force_grid if force_grid is not None else rng.random() < 0.6
     case = {"W": W, "H": H, "n": n, "mseed": rng.randrange(2 ** 31),
             "doses_as": doses_as or rng.choice(["array", "array", "list", "file", "csv"]),
-            "form": form or rng.choice(["xyz_c", "xyz_c"] + FORMS), "pxas": rng.choice(["float", "float", "np64", "np32", "str", "int"])}
+            "form": form or rng.choice(["xyz_c", "xyz_c"] + FORMS), "pxas": rng.choice(["float", "float", "np64", "np32", "str"])}
     if rng.random() < 0.25:
         case["xcheck"] = rng.sample(["mrc", "st", "em", "rec", "ali"], 2)
     if grid:
@@ -509,6 +534,9 @@ def run(ctx):
                 c["xcheck"] = [["mrc", "st", "em", "rec", "ali"][i % 5], ["mrc", "st", "em", "rec", "ali"][(i + 2) % 5]]
                 c["pxas"] = ["float", "np64", "np32", "str", "int"][i % 5]
                 cases.append(c)
+            # integer pixel sizes 1, 2, 10 (and 4, 5) as int / np.int32 / np.int64, judged by the calibration clause
+            for i, (pxi, sp) in enumerate([(1, "int"), (2, "npi64"), (10, "npi32"), (5, "int"), (4, "npi32"), (10, "int")]):
+                cases.append(int_px_case(rng, pxi, sp, i))
             for c in cases:
                 c["pw_max"] = 16
         else:
@@ -521,6 +549,8 @@ def run(ctx):
                 nimg = [1, 2, 4, 7, 8, 9, 10, 11, 12, 16][i % 10]
                 cases.append(rand_case(rng, area_cap=600, nmin=nimg, nmax=nimg, dose_mode="distinct", form=FORMS[i % len(FORMS)],
                                        comp=(i % 3 == 0)))
+            for i in range(40):
+                cases.append(int_px_case(rng, [1, 2, 10, 5, 4][i % 5], ["int", "npi32", "npi64"][i % 3], i))
             for i in range(90):
                 mode = ["constant", "multiples", "zero_middle", "ramp_down", "few_values", "ramp_up"][i % 6]
                 cases.append(rand_case(rng, area_cap=900, nmin=2, force_grid=(i % 2 == 0), dose_mode=mode,
